@@ -8,7 +8,7 @@ import random
 import sys
 import time
 
-from . import core, gen, oracles, profiles
+from . import core, gen, grids, oracles, profiles
 
 
 def history_signature(lines):
@@ -25,7 +25,19 @@ def nontrivial(blocks):
 
 
 def run_stream(profile_name, n, seed, keep_samples=2):
-    P = profiles.get(profile_name)
+    grid = None
+    if profile_name.startswith("grid-"):
+        # exhaustive enumeration: worker k (= seed % 1000) takes the k-th slice of n histories
+        full = grids.get(profile_name)
+        k = seed % 1000
+        grid = full[k * n:(k + 1) * n]
+        n = len(grid)
+        P = profiles.get("general")
+    else:
+        P = profiles.get(profile_name)
+    if n == 0:
+        return dict(profile=profile_name, seed=seed, histories=0, grid_total=len(full), distinct_nontrivial=0, stats={},
+                    mismatches=[], n_mismatches=0, oracle_failures=[], oracle_errors=[], samples=[], impl_s=0, model_s=0)
     r = random.Random("%s/%d" % (profile_name, seed))
     all_lines, all_blocks, all_ops = [], [], []
     stats = collections.Counter()
@@ -36,7 +48,11 @@ def run_stream(profile_name, n, seed, keep_samples=2):
     for i in range(n):
         impl = core.Impl(user_logger=r.random() < P.user_logger)
         loggers.append(impl.user_logger)
-        ops = gen.gen_history(r, P, impl)
+        if grid is not None:
+            ops = grid[i]
+            impl.run(ops)
+        else:
+            ops = gen.gen_history(r, P, impl)
         all_lines.append(impl.lines)
         all_blocks.append(impl.blocks)
         all_ops.append(ops)
@@ -90,7 +106,7 @@ def run_stream(profile_name, n, seed, keep_samples=2):
         sigs.add(sg)
     if len(model) != len(all_blocks):
         mismatches.append(dict(index=-1, op_index=-1, diff="model produced %d histories, impl %d" % (len(model), len(all_blocks)), lines=[]))
-    return dict(profile=profile_name, seed=seed, histories=n, distinct_nontrivial=nontriv,
+    return dict(profile=profile_name, seed=seed, histories=n, grid_total=(len(grids.get(profile_name)) if grid is not None else None), distinct_nontrivial=nontriv,
                 stats=dict(stats), mismatches=mismatches[:20], n_mismatches=len(mismatches),
                 oracle_failures=oracle_fails, oracle_errors=oracle_errors[:3],
                 samples=[all_lines[i] for i in range(min(keep_samples, n))],
